@@ -78,8 +78,8 @@ func counterFloors(tier string) map[string]int64 {
 // C02_ALLOW=fixedpush,emptygroup,gotextws (development only) turns them on to validate a repair.
 var (
 	allowFixedAnywhere   = false // F-C02-fixed-duplicated-after-push
-	allowEmptyRowGroup   = false // F-C02-fixed-layout-empty-first-group
-	allowGotextPreserved = false // F-C02-gotext-preserved-space-text-not-cut
+	allowEmptyRowGroup   = true  // F-C02-fixed-layout-empty-first-group (fixed: c3100ed)
+	allowGotextPreserved = true  // F-C02-gotext-preserved-space-text-not-cut (fixed: 58bd785)
 )
 
 func init() {
@@ -130,7 +130,7 @@ type gen struct {
 	ahem    bool
 	inA     bool
 	gotext  bool // go-text engine: preserved white space is excluded (finding gotext-preserved-space)
-	pageSel int // px by which page selectors may shrink the content height of some pages
+	pageSel int  // px by which page selectors may shrink the content height of some pages
 }
 
 func (g *gen) cur() *Flow { return g.stack[len(g.stack)-1] }
